@@ -26,6 +26,16 @@ def run_bounded(pid, tier):
     items += [(pid, g, dict(params, alphabet="abcd", max_len=3 if tier == "quick" else 4, layout_len=2))
               for g in corpus.lookahead_chains()]
     items += [(pid, g, dict(params, max_len=5)) for g in corpus.nullable_lists()]
+    # Grammar(ignore_case=True): inputs mix upper and lower case
+    ic = dict(params, ignore_case=True, alphabet="aAbB", max_len=3 if tier == "quick" else 4, layout_len=2)
+    items += [(pid, g, ic) for g in corpus.classic() + list(grammars(3, 2))[::5 if tier == "quick" else 1]]
+    # layout given by a LAYOUT rule (blanks and '#') instead of the ws parameter
+    lr = dict(params, layout_rule=True, max_len=min(params["max_len"], 4), layout_len=3)
+    items += [(pid, g, lr) for g in corpus.classic() + corpus.rule_orders()[::6] + list(grammars(3, 2))[::7 if tier == "quick" else 2]]
+    # list (non-string) inputs: Python recognisers on list elements, no layout ('x' is an unknown element)
+    if pid in ("C04", "C10"):
+        li = dict(params, list_input=True, alphabet="abx", max_len=min(params["max_len"], 4), layout_len=0)
+        items += [(pid, g, li) for g in corpus.classic() + list(grammars(3, 2))[::4 if tier == "quick" else 1]]
     if pid == "C08":
         # lexical overlap: forked GLR heads must keep positions and layout too
         ogs = grammars(3, 2)
